@@ -399,7 +399,13 @@ func runC11(o *opts) (*summary, error) {
 	for k := 0; k < 120; k++ {
 		many = append(many, "valid2")
 	}
-	fixedSeqs = append(fixedSeqs, crowd, many)
+	// ... and 45 datagrams of 2048 bytes (90 KiB in one window) between two replies
+	bulk := []string{"valid1"}
+	for k := 0; k < 45; k++ {
+		bulk = append(bulk, "badlen2048")
+	}
+	bulk = append(bulk, "valid2")
+	fixedSeqs = append(fixedSeqs, crowd, many, bulk)
 	nL += len(fixedSeqs)
 	for i := 0; i < nL; i++ {
 		seq := []string{}
